@@ -10,7 +10,18 @@ spaces or references (deletion / renaming of spaces, renaming of cells, several 
 references, write / read) ends the correspondence of the history there; operations that change neither (formulas,
 parameters, ItemSpaces, evaluation, model-level references) are skipped.  A refusal of modelx is compared only when it is the one
 the machine knows (a `relative` reference out of scope); other refusals (name clashes: C12, inconsistent
-hierarchies: C11) leave both sides unchanged and are not sent."""
+hierarchies: C11) leave both sides unchanged and are not sent.
+
+OBJECT IDENTITY (R8C10).  The machine identifies an object with its PATH.  modelx does not: a cells that is deleted is
+gone for good - every reference that held it (the definer's and, copied by `ReferenceImpl.on_inherit` because
+`has_interface()` is false for it, every deriver's) keeps the dead interface, which raises DeletedObjectError when used
+(b4ff488) - also when ANOTHER cells appears under the same path afterwards (the deleted one was defined and the space
+now derives the name from a base; the name is created again; the base is added again).  C10 says nothing about a
+reference whose target object was deleted beyond "keeps denoting the original object", and the machine cannot say which
+object a path denotes.  So a reference that holds a DEAD object on the implementation's side - an invalid interface
+that was a live cells / space of the model at the end of an earlier operation; a null object made by a derivation was
+never live - is left out of the comparison on both sides (by its key `space.name`), for as long as it holds it.  Every
+other row is compared as before; a null object is still compared as a null object."""
 from . import core
 from . import structworld as W
 from modelx.core.base import Interface
@@ -29,9 +40,12 @@ def _tgt(v):
     return "plain:%d" % v
 
 
-def impl_refs(model):
-    """every derived reference of every space, as the driver prints them; None if something cannot be described"""
+def impl_refs(model, seen=None):
+    """every derived reference of every space, as the driver prints them; None if something cannot be described.
+    With `seen` (id -> interface of every object that was live after an earlier operation) returns the pair
+    (rows, keys of the derived references that hold a DEAD object: once live, now deleted)."""
     rows = []
+    dead = set()
     for path, s in W.all_spaces(model):
         for name, r in s._impl.own_refs.items():
             if not r.is_derived():
@@ -39,9 +53,16 @@ def impl_refs(model):
             t = _tgt(r.interface)
             if t is None:
                 return None
+            if seen is not None and t == "null" and seen.get(id(r.interface)) is r.interface:
+                dead.add("%s.%s" % (path, name))
             flag = "-" if t.startswith("plain") else ("R" if r.is_relative else "A")
             rows.append("%s.%s %s %s %s" % (path, name, r.refmode, t, flag))
-    return " | ".join(sorted(rows))
+    out = " | ".join(sorted(rows))
+    return out if seen is None else (out, dead)
+
+
+def _without(rows, keys):
+    return " | ".join(x for x in rows.split(" | ") if x and x.split(" ", 1)[0] not in keys)
 
 
 class HistCorr:
@@ -53,6 +74,15 @@ class HistCorr:
         self.ended = None
         self.compared = 0
         self.ops_sent = 0
+        self.seen = {}      # id -> interface of every space / cells that was live after some operation (kept alive here)
+        self.dead = {}      # index of a `refs` line -> keys of the derived references that hold a deleted object
+        self.dead_rows = 0
+
+    def _register(self, model):
+        for _path, s in W.all_spaces(model):
+            self.seen.setdefault(id(s), s)
+            for c in s.cells.values():
+                self.seen.setdefault(id(c), c)
 
     def stop(self, k, why):
         if self.alive:
@@ -68,6 +98,10 @@ class HistCorr:
         if not self.alive:
             return
         kind = op[0]
+        try:
+            self._register(live.m)
+        except Exception:   # noqa  (the model is gone: the history is over for this layer)
+            return self.stop(k, "no-model")
         if kind in SKIP:
             return
         acc = not result.startswith("err")
@@ -118,10 +152,14 @@ class HistCorr:
             return
         self._emit(line, "acc", k)
         self.ops_sent += 1
-        refs = impl_refs(live.m)
+        refs = impl_refs(live.m, self.seen)
         if refs is None:
             return self.stop(k, "value")
+        refs, dead = refs
         self._emit("refs", refs, k)
+        if dead:
+            self.dead[len(self.lines) - 1] = dead
+            self.dead_rows += len(dead)
 
     def finish(self, out, hist_of, stats=None):
         if len(self.lines) <= 1:
@@ -131,6 +169,8 @@ class HistCorr:
             if exp is None:
                 continue
             self.compared += 1
+            if i in self.dead:      # references that hold a deleted object: not compared (module docstring)
+                exp, g = _without(exp, self.dead[i]), _without(g, self.dead[i])
             if exp != g:
                 k = self.where[i]
                 what = line if line != "refs" else "derived references after " + self.lines[i - 1]
@@ -139,6 +179,7 @@ class HistCorr:
         if stats is not None:
             stats["relhist_lines_compared"] += self.compared
             stats["relhist_ops"] += self.ops_sent
+            stats["relhist_dead_target_rows_not_compared"] += self.dead_rows
             stats["relhist_scope_refusals"] += getattr(self, "refusals", 0)
             if self.ended is not None:
                 stats["relhist_ended:" + str(self.ended[1])] += 1
